@@ -73,13 +73,15 @@ def handle (op : String) (j : Json) : R Json := do
     pure (Json.mkObj [("results", jList (fun (c : String × (Nat × Nat) × (Nat × Nat) × String) =>
       jOpt jChars (ESV.PosMark.replaceSpan c.1.toList c.2.1 c.2.2.1 c.2.2.2.toList)) cs)])
   | "lex.positions" =>
-    -- {"cases": [[text, offset], …]} → ANTLR (line, column) of the character at `offset` (0-based line)
+    -- {"cases": [[text, [offset, …]], …]} → per text the ANTLR (line, column) of the character at each offset (0-based line):
+    -- `posOf (text.take offset)`
     let cs ← (← asArr (← fld j "cases")).mapM fun c => do
       match (← asArr c) with
-      | [t, n] => pure ((← asStr t), (← asNat n))
+      | [t, ns] => pure ((← asStr t), (← (← asArr ns).mapM asNat))
       | _ => throw "bad case"
-    pure (Json.mkObj [("results", jList (fun (c : String × Nat) =>
-      let p := ESV.PosMark.posOf (c.1.toList.take c.2); Json.arr #[jNat p.1, jNat p.2]) cs)])
+    pure (Json.mkObj [("results", jList (fun (c : String × List Nat) =>
+      let cs := c.1.toList
+      jList (fun (n : Nat) => let p := ESV.PosMark.posOf (cs.take n); Json.arr #[jNat p.1, jNat p.2]) c.2) cs)])
   | _ => throw s!"unknown op {op}"
 
 end Drv.LexD
